@@ -20,7 +20,7 @@ open Finset BigOperators
 set_option linter.unusedSectionVars false
 
 namespace GT.C14
-open GT
+open GT GT.Targets GT.Circle
 
 section generic
 variable {K : Type*} [Field K] [LinearOrder K] [IsStrictOrderedRing K] {n : ℕ} {r : K → K}
@@ -330,7 +330,7 @@ theorem sphere_k3_counterexample :
   · intro j; fin_cases j <;> simp [nsq, dot, Fin.sum_univ_succ] <;> norm_num
   · set ks : Fin 3 → Fin 3 → ℝ := ![![1, 0, 0], ![0, 1, 0], ![0, 3 / 5, 4 / 5]] with hks
     have hm : centroid ks = ![1 / 3, 8 / 15, 4 / 15] := by
-      funext i; fin_cases i <;> simp [centroid, hks, Fin.sum_univ_succ] <;> norm_num
+      funext i; fin_cases i <;> simp [Circle.centroid, hks, Fin.sum_univ_succ] <;> norm_num
     have hn : nsq (centroid ks) = 7 / 15 := by
       rw [hm]; simp [nsq, dot, Fin.sum_univ_succ]; norm_num
     obtain ⟨hc, hrad, _⟩ := poincareSphere_closed C01.isSqrt_real (centroid ks)
@@ -351,7 +351,7 @@ theorem halfspace_k3_counterexample :
   · intro j; fin_cases j <;> simp
   · set hs : Fin 3 → Fin 3 → ℝ := ![![0, 0, 0], ![1, 0, 0], ![0, 2, 0]] with hhs
     have hm : centroid hs = ![1 / 3, 2 / 3, 0] := by
-      funext i; fin_cases i <;> simp [centroid, hhs, Fin.sum_univ_succ] <;> norm_num
+      funext i; fin_cases i <;> simp [Circle.centroid, hhs, Fin.sum_univ_succ] <;> norm_num
     show nsq (fun i => hs 1 i - centroid hs i)
       ≠ (Real.sqrt (nsq (fun i => hs 0 i - centroid hs i))) ^ 2
     rw [Real.sq_sqrt (nsq_nonneg _), hm]
